@@ -852,7 +852,12 @@ def union_find_forest(edges):
 
 
 def is_cyclic_real(edges):
-    from perceval.converters.converter_utils import _is_cyclic
+    """the code's private cycle test; None when a tree no longer has it under that name (then it is not compared:
+    the labelling built on it is still compared through `label_cnots_in_gate_sequence`)"""
+    try:
+        from perceval.converters.converter_utils import _is_cyclic
+    except ImportError:
+        return None
     nodes = sorted({x for e in edges for x in e})
     idx = {v: i for i, v in enumerate(nodes)}
     adj = [[] for _ in nodes]
@@ -991,6 +996,13 @@ def check_labelling(chk, pool, fixed):
     for g, r in zip(graphs, reps):
         real = is_cyclic_real([tuple(e) for e in g])
         chk.case(None, nontrivial=False)
+        if real is None:
+            chk.count("private_members_missing", "_is_cyclic")
+            if r.get("cyclic") != (not union_find_forest([tuple(e) for e in g])):
+                chk.fail("broken", "cyclic-model-mismatch", f"model cyclic({g}) = {r}", {"kind": "cyclic", "edges": g})
+                break
+            chk.branch("cyclic:" + str(r.get("cyclic")))
+            continue
         if r.get("cyclic") != real or real != (not union_find_forest([tuple(e) for e in g])):
             chk.fail("broken", "cyclic-model-mismatch", f"_is_cyclic({g}) = {real}, model {r}", {"kind": "cyclic", "edges": g})
             break
